@@ -118,6 +118,12 @@ def judge_savepoint(program, lang, stage, key, col, tmpdir, textG, path=None, li
             own = 'own-language' if l == lang else 'cross-language'
             viols.append(('C13/text-differs-after-load/%s/%s' % (l, own),
                           {'stage': stage, 'translator': l, 'diff': _first_diff(tp_[l], tq[l])}))
+    # (1b) the stored test case is (source text written by the driver *before* the dump, .bin): --replay must
+    # reproduce that source (a translator that rewrites the program on its first translation breaks this although
+    # the live object and the loaded one agree with each other)
+    if stage == 'G' and textG is not None and tq.get(lang) != textG:
+        viols.append(('C13/stored-source-differs-from-replayed-translation/%s' % lang,
+                      {'stage': stage, 'diff': _first_diff(textG, tq.get(lang) or '')}))
     # (4) reverse lookup
     np_, nq = (live_ns if live_ns is not None else namespaces_of(program)), namespaces_of(q)
     if np_ != nq:
@@ -309,6 +315,13 @@ def run_shard(spec, col):
         judge_case(pg.gen_case(lang, 'tape', 0, sw, limits, data=data, budget=4000), col, xleg)
     hyp.explore(st.tuples(st.data(), pg.config_strategy(small=True)), tape_case, 16 if quick else 400,
                 col.shard_seed('tape'))
+
+    def hand_case(data):
+        # hand-shaped programs (vlib/handprog.py): nested functions, varargs of parameterized element type, generic calls
+        case = pg.hand_case(lang, draw=data.draw)
+        col.feature('programs_handmade')
+        judge_case(case, col, xleg)
+    hyp.explore(st.data(), hand_case, 10 if quick else 300, col.shard_seed('hand'))
     xleg.run(col)
 
 
